@@ -22,6 +22,7 @@ import (
 	"go/token"
 	"os"
 	"path/filepath"
+	"regexp"
 	"sort"
 	"strings"
 )
@@ -1189,7 +1190,13 @@ func (c *ctx) stmt(s ast.Stmt) paths {
 				if as, ok := cc.Comm.(*ast.AssignStmt); ok {
 					c.assign(as.Lhs, as.Rhs, as.Tok == token.DEFINE)
 				}
-				p = seqPaths(simple(pBlock), c.list(cc.Body, false))
+				park := pBlock
+				if assumeLiveSends[c.fn.file] {
+					// a select between a send to a (live) subscriber and the emitter's own closing signal
+					park = pCall
+					u.live[c.site] = true
+				}
+				p = seqPaths(simple(park), c.list(cc.Body, false))
 			}
 			if acc == nil {
 				acc = &p
@@ -1320,6 +1327,64 @@ func (u *universe) funcProg(fi *funcInfo, depth int, pos token.Pos) *prog {
 	fi.done = true
 	fi.prog = p
 	return p
+}
+
+// ---------------------------------------------------------------- multi-key reads
+
+var componentRe = regexp.MustCompile(`^(getBlockHeader|getTransactions|getBlockAssets)(From)?$`)
+
+// readDiscipline classifies a function that assembles a compound value from the separately stored parts of a block
+// (header, transaction list, assets): "" = reads at most one component, "one" = all components read through the
+// same variable bound to <db>.NewReader() (one pebble snapshot), "separate" = anything else.
+func readDiscipline(fd *ast.FuncDecl) string {
+	if fd.Body == nil {
+		return ""
+	}
+	snap := map[string]bool{}
+	comps := map[string]bool{}
+	srcs := map[string]bool{}
+	ast.Inspect(fd.Body, func(n ast.Node) bool {
+		switch x := n.(type) {
+		case *ast.AssignStmt:
+			if len(x.Lhs) == 1 && len(x.Rhs) == 1 {
+				if call, ok := x.Rhs[0].(*ast.CallExpr); ok {
+					if se, ok := call.Fun.(*ast.SelectorExpr); ok && se.Sel.Name == "NewReader" {
+						if id, ok := x.Lhs[0].(*ast.Ident); ok {
+							snap[id.Name] = true
+						}
+					}
+				}
+			}
+		case *ast.CallExpr:
+			name := ""
+			switch f := x.Fun.(type) {
+			case *ast.Ident:
+				name = f.Name
+			case *ast.SelectorExpr:
+				name = f.Sel.Name
+			}
+			m := componentRe.FindStringSubmatch(name)
+			if m == nil {
+				return true
+			}
+			comps[m[1]] = true
+			src := "<separate Get>"
+			if m[2] == "From" && len(x.Args) > 0 {
+				if id, ok := x.Args[0].(*ast.Ident); ok && snap[id.Name] {
+					src = id.Name
+				}
+			}
+			srcs[src] = true
+		}
+		return true
+	})
+	if len(comps) < 2 {
+		return ""
+	}
+	if len(srcs) == 1 && !srcs["<separate Get>"] {
+		return "one"
+	}
+	return "separate"
 }
 
 // ---------------------------------------------------------------- lock order + output
@@ -1498,7 +1563,7 @@ func main() {
 	b.WriteString("(* GENERATED by translate/skeletons from the lisk-engine sources - do not edit.\n")
 	b.WriteString("   Lock/blocking skeletons of every function of the listed files; obligations: each is a safe program\n")
 	b.WriteString("   (balanced, no re-acquisition, nested locks only in the order below, nothing blocking under a lock). *)\n")
-	b.WriteString("From Coq Require Import List String.\nFrom LE Require Import Conc.RWMutex Conc.Skeleton Conc.SharedAppend.\nImport ListNotations.\nLocal Open Scope string_scope.\n\n")
+	b.WriteString("From Coq Require Import List String Bool.\nFrom LE Require Import Conc.RWMutex Conc.Skeleton Conc.SharedAppend Conc.SnapshotRead.\nImport ListNotations.\nLocal Open Scope string_scope.\n\n")
 	b.WriteString("(* the one fixed lock order (position = identifier) *)\n")
 	for i, n := range order {
 		fmt.Fprintf(&b, "Definition lk_%s : nat := %d.\n", coqName(n), i)
@@ -1559,6 +1624,27 @@ func main() {
 		fmt.Fprintf(&b, "\n  (%q, %s)", k, d)
 	}
 	b.WriteString("].\nLemma fanouts_ok : forallb (fun p => discipline_ok (snd p)) fanouts = true.\nProof. vm_compute. reflexivity. Qed.\n")
+	b.WriteString("\n(* getters that assemble a block from its separately stored parts: through one snapshot, or by separate reads *)\n")
+	b.WriteString("Definition multi_reads : list (string * read_discipline) := [")
+	mr := map[string]string{}
+	first := true
+	for _, fi := range fns {
+		d := readDiscipline(fi.decl)
+		if d == "" {
+			continue
+		}
+		mr[fi.key()] = d
+		if !first {
+			b.WriteString(";")
+		}
+		first = false
+		cd := "SeparateReads"
+		if d == "one" {
+			cd = "OneSnapshot"
+		}
+		fmt.Fprintf(&b, "\n  (%q, %s)", fi.key(), cd)
+	}
+	b.WriteString("].\nLemma multi_reads_ok : andb (negb (match multi_reads with [] => true | _ => false end)) (forallb (fun p => read_discipline_ok (snd p)) multi_reads) = true.\nProof. vm_compute. reflexivity. Qed.\n")
 	if len(u.errs) > 0 {
 		for _, e := range u.errs {
 			fmt.Fprintln(os.Stderr, "skeletons: "+e)
@@ -1597,7 +1683,7 @@ func main() {
 	}
 	sum := map[string]interface{}{
 		"functions": len(fns), "lock_order": order, "nesting": edgeList, "opaque_calls": keys(u.opaque),
-		"assumed_live_sends": keys(u.live), "fanouts": fo, "changed": changed, "files": listed,
+		"assumed_live_sends": keys(u.live), "fanouts": fo, "multi_reads": mr, "changed": changed, "files": listed,
 	}
 	js, _ := json.Marshal(sum)
 	fmt.Println(string(js))
